@@ -48,6 +48,9 @@ static zckCtx *mk_scan(IN_sc *in) {
             c->zck = zck; c->digest_size = SPEC_DIGEST_SIZE(in->ctype); c->next = NULL;
             c->digest = malloc(c->digest_size);
             V_ASSUME(c->digest != NULL);
+#ifdef VERIF_SCAN_MAXLEN
+            V_ASSUME(c->comp_length <= VERIF_SCAN_MAXLEN);   /* fully unwound units: at most two full blocks and a partial one per chunk */
+#endif
             c->start = start; start += c->comp_length;
             if(prev) prev->next = c; else zck->index.first = c;
             prev = c; sc_nodes[i] = c; g_sc_valid0[i] = c->valid;
